@@ -6,3 +6,5 @@ import MtailVerif.Props.C13
 #print axioms MtailVerif.C13.histogram_cumulative_monotone
 #print axioms MtailVerif.C13.histogram_last_cumulative_eq_total
 #print axioms MtailVerif.C21.sum_buckets_eq_count
+#print axioms MtailVerif.C13.export_skeletons
+#print axioms MtailVerif.C13.datum_skeletons
